@@ -199,3 +199,44 @@ def c12c_set_inside(ex, st, s, cs):
     x = z3.Const(fresh_name('x'), Val)
     return v_bool(_fa([x], z3.Implies(z3.Select(d, x), z3.Exists([p], z3.And(p >= 0, p < n, z3.Select(arr, p) == x))),
                       [z3.Select(d, x)]))
+
+
+# ---- names collected by dict_of_elementary_expression ---------------------------------------------------------
+def _any_dom(st, s):
+    if s.kind == 'py' and s.py and s.py[0] == 'c12set':        # set values of specs/c12_audit.py
+        return s.py[1]
+    if s.kind == 'dict':
+        return st.read(as_ref(s), '$dom')
+    return dom_of(st, s)
+
+
+@spec('c12c_keys_are')
+def c12c_keys_are(ex, st, d, a):
+    """the dictionary d has exactly the keys of the set value a"""
+    if d.kind != 'dict':
+        raise Unsupported(f'c12c_keys_are: not a dict ({d.kind})')
+    return v_bool(st.read(as_ref(d), '$dom') == _any_dom(st, a))
+
+
+def union_of_doms(st, n, dom_at, key):
+    """D with  forall k in [0,n), x: dom_at(k)[x] -> D[x]   and   forall x: D[x] -> 0 <= at(D,x) < n and dom_at(at(D,x))[x]"""
+    k = z3.Int('c12c!k')
+    x = z3.Const('c12c!x', Val)
+    dk = dom_at(k)
+    D = _named('c12c.union', n, dk, *key)
+    at = uf('c12c.at_outer', DOM, Val, I)
+    _add(st, _fa([k, x], z3.Implies(z3.And(k >= 0, k < n, z3.Select(dk, x)), z3.Select(D, x)), [z3.Select(dk, x)]))
+    da = z3.substitute(dk, (k, at(D, x)))
+    _add(st, _fa([x], z3.Implies(z3.Select(D, x), z3.And(at(D, x) >= 0, at(D, x) < n, z3.Select(da, x))), [z3.Select(D, x)]))
+    return D
+
+
+@spec('c12c_union_names')
+def c12c_union_names(ex, st, children, the_type):
+    """{x | exists k < len(children): x in names_of_type(children[k], the_type)}   (names_of_type: specs/c12_audit.py)"""
+    if children.kind != 'list':
+        raise Unsupported('c12c_union_names: not a list')
+    n, arr = st.list_len(children), st.list_elems(children)
+    f = uf('C12.names_of_type', Val, Val, DOM)
+    tt = ex.box(st, the_type)
+    return setval(union_of_doms(st, n, lambda k: f(z3.Select(arr, k), tt), ()))
